@@ -23,7 +23,7 @@ META = dict(
     text="Every combination of builder, 9 potential kinds, exit-plane settings, 6 detector sets, 5 scans and 3 max_batch values is run eagerly "
          "and lazily and compared (values, shape, type, axes, metadata, outcome class); incident waves are rechunked with every composition; "
          "and for every ensemble case the real task graph is executed under all linear extensions of its abTEM tasks (<= 120 quick / 720 "
-         "thorough, else every completed deviation level 0, 1, 2, 3 that fits a budget of 400 / 1000 runs per graph (quick: levels <= 2)) by a scheduler we own, with a per-task input-mutation monitor.",
+         "thorough, else every completed deviation level 0, 1, 2, 3 that fits a budget of 400 / 600 runs per graph (quick: levels <= 2)) by a scheduler we own, with a per-task input-mutation monitor.",
     note="Task-atomic interleavings only: pre-emption inside a task is covered by the mutation monitor's commutation argument and a free-running "
          "threaded pass (sampling, reported as such). State the monitor cannot digest (FFTW wisdom, numba caches) is not modelled. Grids 16x12, "
          "<= 4 slices, <= 3 configurations, <= 6 positions. cpu only.",
@@ -70,9 +70,9 @@ def check(ctx):
         combos = [x for x in itertools.product(["fp2", "fp3", "fp2mean", "ae2", "crystal_fp", "atoms", "array"], [None, 1],
                                                ["waves", "pix", "multi", "seg", "flex", "annular"], ["custom", "grid"], [1, 2, "auto"])]
     for p, ep, d, s, mb in combos:
-        sc.append({"p": p, "ep": ep, "d": d, "s": s, "mb": mb, "cap": 120 if q else 720, "dev": 2 if q else 3, "max_runs": 400 if q else 1000})
+        sc.append({"p": p, "ep": ep, "d": d, "s": s, "mb": mb, "cap": 120 if q else 720, "dev": 2 if q else 3, "max_runs": 400 if q else 600})
     res = ctx.run(sc, "run_schedules", batch=1, rule="C: all linear extensions of the abTEM tasks of the lazy graph (cap 120/720, else completed deviation "
-                  "levels within a 400/1000-run budget), mutation monitor on every task input", space="C schedules")
+                  "levels within a 400/600-run budget), mutation monitor on every task input", space="C schedules")
     ctx.extra["schedules_executed"] = sum(r.get("tr", 0) for r in res)
     ctx.extra["schedule_cases_exhaustive"] = sum(1 for r in res if r.get("exhaustive"))
     ctx.extra["schedule_cases_bounded"] = sum(1 for r in res if r.get("exhaustive") is False)
